@@ -35,6 +35,8 @@ def run(ctx):
                 opts.update({"dup_attrs": 0.15, "implicit_consts": 0.5, "cu_imports": 0.3})
             if k % 4 == 3:
                 opts["vendor_forms"] = 0.15       # GNU_str_index / GNU_addr_index: form codes above 0xff
+            if k % 5 == 4:
+                opts["dangling_refs"] = 0.6       # a specification / abstract_origin libdw cannot resolve: still listed raw
             if k % 3 == 2:
                 opts["type_units"] = 0.4           # DWARF 5 type units: roots that are neither compile nor partial units
             desc, path = fs.make(rng, **opts)
